@@ -552,7 +552,7 @@ pub fn generate(seed: u64, profile: &Profile) -> LPlan {
         horizon_ms,
         max_steps: 400_000,
         fine: r.chance(0.5),
-        probing: r.chance(0.85),
+        probing: true,
         actions,
     }
 }
